@@ -4,6 +4,7 @@ From Verif Require Import Base.Util Model.Outcome Model.Observation Proofs.SortP
   Proofs.K08Proofs Gen.Generated.
 From Verif Require Import Base.GenIR Gen.GeneratedTr Proofs.GenTrHooks.
 From Verif Require Import Base.GenIR Gen.GeneratedTr Proofs.GenTrObs.
+From Verif Require Model.Wire Proofs.WireLenProofs.
 Open Scope N_scope.
 
 (* Performables: for every store content (any number of staged results, any sizes >= 2 bytes), every
@@ -190,6 +191,17 @@ Proof. exact gen_observation. Qed.
 Print Assumptions C08_gen_Observation_hook_order.
 
 End GenTie.
+
+(* The size arithmetic the trimming hook relies on, on the byte-exact wire model (Model/Wire.v, tied to Encode() by the
+   C15 run): the observation with the results l is the observation without performables, with the 4 bytes of `null`
+   replaced by '[' r1 ',' ... ',' rk ']' - exactly Model/Observation.v's obs_size (base - 4 + 2 + sizes + (k - 1)). *)
+Theorem C08_size_arithmetic :
+  forall (l : list Wire.wres) props hist,
+    l <> [] ->
+    (length (Wire.enc_obs (Wire.mkWObs (Some l) props hist)) + 4 =
+     length (Wire.enc_obs (Wire.mkWObs None props hist)) + 2 + fold_right (fun r a => length (Wire.pr_res r) + a) 0 l + (length l - 1))%nat.
+Proof. exact WireLenProofs.obs_size_arithmetic. Qed.
+Print Assumptions C08_size_arithmetic.
 
 Example C08_nonvacuous :
   let staged := [mkSRes 1 30 400; mkSRes 2 10 400; mkSRes 3 20 400; mkSRes 4 5 400]%Z in
